@@ -13,10 +13,17 @@ Check (C19_load_alloc : forall is_upper cap ovf strip d st,
   let r := snd (visit_doc is_upper cap ovf strip false st d) in
   let B := justified (slots st) (List.length (concat d)) in
   alloc r <= N.max (alloc st) B /\ slots r <= B + N.of_nat (List.length (concat d))).
-Check (C19_csv_row_total : forall r, csv_row false r <> Panic /\ csv_row false r <> Abort).
+Check (C19_csv_row_total : forall r, csv_row false r <> Panic /\ csv_row false r <> Abort /\ csv_row false r <> Hang).
 Check (C19_dataset_include_total : forall files depth stack inc,
   (max_include_depth + 1 <= stack + depth)%nat ->
-  ds_include false stack depth files inc <> Panic /\ ds_include false stack depth files inc <> Abort).
+  ds_include false stack depth files inc <> Panic /\ ds_include false stack depth files inc <> Abort /\ ds_include false stack depth files inc <> Hang).
+Check (Known_C19_quadratic_witness : forall k n count,
+  2 * dedup_cost count (repeat {| d_key := k; d_hasid := false |} n)
+  = N.of_nat n * (N.of_nat n - 1) + 2 * count k * N.of_nat n).
+Check (C19_csv_simple_roundtrip : forall id data set b,
+  data <> [] -> nosemi data -> nosemi set -> simple_wf b ->
+  csv_row false (row_of_simple id data set b)
+  = Ok {| ab_id := opt id; ab_data := [(set, data)]; ab_target := Some b |}).
 Print Assumptions C19_cursor_total.
 Print Assumptions C19_cursor_spec.
 Print Assumptions C19_cursor_roundtrip.
@@ -39,3 +46,10 @@ Print Assumptions C19_dataset_include_total.
 Print Assumptions Known_C19_cbor_handle_witness.
 Print Assumptions Known_C19_cbor_depth_witness.
 Print Assumptions C19_before_the_repairs.
+Print Assumptions C19_include_stdin_total.
+Print Assumptions C19_cost_with_ids.
+Print Assumptions C19_cost_fresh_keys.
+Print Assumptions Known_C19_quadratic_witness.
+Print Assumptions Known_C19_quadratic_superlinear.
+Print Assumptions C19_linear_otherwise.
+Print Assumptions C19_csv_simple_roundtrip.
